@@ -161,4 +161,28 @@ def shapeOk (tab : Tableau Rat) : Bool :=
   tab.a.length == tab.b.length && tab.c.length == tab.b.length &&
   (tab.a.zipIdx.all fun p => p.1.length ≤ p.2)
 
+/-! ## Krylov integrator: when is the projected evolution exact? (`integrator/krylov.py`)
+
+`_lanczos_algorithm` builds Krylov vectors until it has `krylov_dim + 1` of them or the next candidate
+has a norm not above `sub_system_tol` (the Krylov space has closed: it is invariant under `H` and the
+projected evolution is exact — "happy breakdown").  `small j` stands for `T_subdiag[j] ≤ tol`. -/
+
+/-- the loop `while j < krylov_dim and T_subdiag[j] > tol: j += 1`, started at `j`, with fuel -/
+def lanczosLoop (small : Nat → Bool) (kd : Nat) : Nat → Nat → Nat
+  | 0, j => j
+  | fuel + 1, j => if j < kd && !small j then lanczosLoop small kd fuel (j + 1) else j
+
+/-- number of Krylov vectors built (`krylov_tridiag.shape[0]`) -/
+def lanczosCount (small : Nat → Bool) (kd : Nat) : Nat := lanczosLoop small kd kd 0 + 1
+
+/-- `set_state` (and, since the repair, `_prepare`): no step bound is needed when the recursion
+stopped early or the Krylov space is the whole space -/
+def stepUnbounded (small : Nat → Bool) (kd N : Nat) : Bool :=
+  lanczosCount small kd ≤ kd || lanczosCount small kd == N
+
+/-- `_prepare` before the repair: a recursion that stopped with exactly `krylov_dim` vectors was
+taken for a full one -/
+def stepUnboundedOld (small : Nat → Bool) (kd N : Nat) : Bool :=
+  lanczosCount small kd < kd || lanczosCount small kd == N
+
 end Qv.C10
